@@ -12,19 +12,20 @@ ID = "C07"
 LEVEL = "exploration"
 RUNS = {"quick": 1300, "thorough": 30000}
 CHUNK = {"quick": 10, "thorough": 40}
-PROBES = ["client_restarted", "task_lost_in_flight_seen", "multi_client", "noise_on_wire", "metadata_cache_hit_possible",
+PROBES = ["multi_frame_post", "identity_probe", "client_restarted", "task_lost_in_flight_seen", "multi_client", "noise_on_wire", "metadata_cache_hit_possible",
           "op_mask", "op_base64", "op_base64url", "op_netbios", "op_netbiosu", "op_prepend", "op_append", "op_header",
           "op_parameter", "op_print", "op_uri_append", "op__header", "op__parameter", "peer_unpadded_base64url",
           "client_crashed_on_corrupt_response", "handler_on_kth_task_k>=3"]
 RULE = ("seeded session plans: generated HTTP(S) beacon configuration (1-3 domain/URI pairs, verbs, submit URI, three "
         "data-transform programs with printable placements incl. static headers/parameters and uri-append), 1-3 real "
-        "clients sharing one BeaconConfig, operator task list, handlers producing 0-4 callbacks, noise traffic, and a "
+        "clients sharing one BeaconConfig, operator task list, handlers producing 0-4 callbacks, raw multi-frame POSTs (2-5 framed callbacks built with the library primitives), noise traffic, and a "
         "fault list keyed by (client, request ordinal): drop_request, drop_response, dup_request, http_error, "
         "corrupt_request, corrupt_response, delay, restart, clock jump. non-trivial = at least one task received and "
         "one callback decoded by the peer and (a fault fired or several clients interleave); distinct = distinct "
         "event-log digest; interleaving shapes = distinct (event kind) sequences")
 ASSUMPTIONS = [
     "when get and post verbs are equal, get URIs and submit URI are not prefixes of one another (routing is by verb+prefix)",
+    "get URIs may be prefixes of one another, but the longer one then continues with a character ('.', '~') that no encoder alphabet or generated affix contains (otherwise uri-append data after the shorter URI could spell the longer URI: ambiguous by construction)",
     "one passive decoder per beacon and key variant; the RSA-only decoder may reject packets seen before a first check-in",
     "a message hit by corrupt_request may raise anything or decode to a subset of the original packets, never to a different packet (verifying decoders)",
     "error responses and responses to noise are not fed to the decoders (no routing promise exists for responses)",
